@@ -53,7 +53,7 @@ class C08(Check):
     pid = 'C08'
     level = 'model_checking'
     rule = ('meek, warren (full arithmetic x omega x defeat_batch menu, including omega below one unit which forces the stable-state exit) and meek-prf '
-            'on U(3,<=4) x seats; defaults on U(3,5), W(4,2,3,{1,2}), weighted W(3,3,3,{1,2,3,5,8}); equal-rank profiles Q(3,<=3) for meek/warren '
+            'on U(3,<=4) x seats; defaults on U(3,5), W(4,2,3,{1,2}), weighted W(3,3,3,{1,2,3,5,8}); equal-rank profiles Q(3,<=3) and the 4-candidate QW(4) family for meek/warren '
             '(thorough: Q(3,4), U(3,6), W(4,2,4,{1,2,3}), full menu on more). states = distinct in-scope snapshots (statuses, keep factors, tallies, residual), '
             'transitions = distinct consecutive pairs, traces_validated = real counts whose every in-scope snapshot and every iteration exit satisfied the model. '
             'non-trivial = counts with at least one iteration round that did not end by electing')
@@ -69,6 +69,7 @@ class C08(Check):
         yield from families.seats_ties(3, spaces.Q(3, 0, 3), ties='id', cfgs=D[:2] + menu[::3])
         yield from families.seats_ties(4, spaces.W(4, 2, 3, (1, 2)), seats=(1, 2, 3), ties='id', cfgs=D + menu[::6])
         yield from families.withdrawn_family(3, spaces.U(3, 0, 4), D, seats=(1, 2))
+        yield from families.seats_ties(4, spaces.QW(4), seats=(1, 2), ties='id', cfgs=D[:2] + menu[2::11])
         yield from families.seats_ties(3, spaces.U(3, 5, 5), ties='id', cfgs=D + menu[::8])
         yield from families.seats_ties(3, spaces.W(3, 3, 3, (1, 2, 3, 5, 8)), seats=(1, 2), ties='id',
                                        cfgs=D if tier == 'quick' else D + menu[::4])
